@@ -11,6 +11,7 @@ build profiles; nothing is bounded.
 -/
 import CamVerif.Proofs.C11Stream
 import CamVerif.Proofs.C11Pixel
+import CamVerif.Spec.PFNC
 namespace CamVerif.C11
 open CamVerif CamVerif.Stream
 open CamVerif.Spec
@@ -324,6 +325,20 @@ theorem pixel_one_to_one :
     have d₂ := (Pixel.decode_of_encode h₂).1
     rw [d₁] at d₂
     exact Option.some.inj d₂
+
+/-- **pixel_codes_are_pfnc**: the code of every format is the one the frozen, independent PFNC
+reference (`Spec/PFNC.lean`) assigns to it — so a *consistent* renumbering of both Rust tables,
+which keeps them bijective, is still rejected — and every reference code has PFNC structure
+(colour byte 0x01 / 0x02 with a non-zero bits-per-pixel byte, or the vendor range 0x40 used by
+the IDS formats). -/
+theorem pixel_codes_are_pfnc :
+    (∀ f : PixelFormat, encode? f = Gen.PixelFormat.lookupFormat f PFNC.table) ∧
+    PFNC.table.length = allFormats.length ∧
+    PFNC.table.all (fun fc => (((PFNC.colourByte fc.2 == 1 || PFNC.colourByte fc.2 == 2) &&
+      PFNC.bppByte fc.2 != 0) || PFNC.colourByte fc.2 == 0x40) && decide (fc.2 < 2 ^ 32)) = true := by
+  refine ⟨?_, by decide +kernel, by decide +kernel⟩
+  intro f
+  cases f <;> decide +kernel
 
 /-- **pixel_bijection (tables)**: the literals of the decode arms are pairwise distinct (no
 shadowed arm), so are the variants they produce and both columns of the encode table; every
